@@ -76,7 +76,15 @@ func makeWorkspace(c *core.Ctx, name string, nproj int, salt int64) *workspace {
 				}
 			}
 		}
+		// monthly precipitation correction on; a second weather folder holds the same records with other correction
+		// factors (line variant 4 points the run there): lines of one project that differ in their weather folder
+		p.Cfg.PreCorr = 1
+		p.Weather.Preco = []int{131, 128, 120, 112, 105, 102, 101, 103, 107, 114, 122, 129}
 		p.Write(root, paramSrc)
+		alt := *p
+		alt.Weather.Folder = p.Weather.Folder + "_alt"
+		alt.Weather.Preco = []int{100, 104, 109, 117, 125, 133, 138, 130, 121, 113, 106, 101}
+		alt.WriteWeather(root)
 		// a second weather file with a hole in the middle (negative test: gap in weather data)
 		g := *p
 		g.Weather.FCode = "GAP"
@@ -127,7 +135,7 @@ func (ws *workspace) lineRef(solo map[string]string, pi, k, variant int) batchLi
 
 // lineVariants: the same project with one configuration key overridden on the batch line. Lines of one session that
 // share every input file but differ in a key must not see each other's settings (caches keyed by file only).
-const lineVariants = 4
+const lineVariants = 5
 
 func (ws *workspace) lineVar(pi int, k int, fail string, variant int) batchLine {
 	p := ws.Projects[pi]
@@ -188,6 +196,8 @@ func (ws *workspace) lineVar(pi int, k int, fail string, variant int) batchLine 
 			set("ResultFileFormat", "1")
 		}
 		set("ResultFileExt", "out")
+	case 4: // the same records from the project's second weather folder (other precipitation correction factors)
+		set("WeatherFolder", p.Weather.Folder+"_alt")
 	}
 	res := fmt.Sprintf("RES_%s_L%d", p.Name, k)
 	set("resultfolder", res)
